@@ -8,3 +8,13 @@ UNITS = {
                "against the property's wording (spec/hex_spec.rs)",
     },
 }
+
+UNITS["secrets"] = {
+    "files": [("src/lib.rs", "crate"), ("src/platform.rs", "crate::platform")],
+    "prelude": _p("prelude/core.rs", "prelude/deps.rs", "prelude/secrets.rs"),
+    "spec": [],
+    "overlays": _p("contracts/secrets.vc"),
+    "doc": "Zeroize impls of Hash/Output/ChunkState/Hasher/OutputReader (every field but `platform` zero/empty "
+           "afterwards) and the hand-written Debug impls of ChunkState/Hasher/OutputReader (ghost log depends on "
+           "lengths, counters, flags, platform only)",
+}
